@@ -225,7 +225,7 @@ def step (st : Option DS) (line : String) : Option DS × String :=
     match l.toNat? with
     | some l =>
       if l < d.vis s then
-        (some { d with s := exec s (.use (d.mid l) (-1)) }, "r" ++ toString s.nextReq ++ " cap=" ++ toString answerChanCap)
+        (some { d with s := exec s (.use (d.mid l) (-1)) }, "r" ++ toString s.nextReq ++ (if answerChanCap ≥ 1 then " room-for-the-answer" else " cap=" ++ toString answerChanCap))
       else (st, "bad-handle")
     | none => (st, "bad-op")
   | "window" :: _mode :: ws, some d => if d.bb then (st, "window-skipped") else windowStep d ws
